@@ -12,7 +12,7 @@ import (
 func init() {
 	register(&propDef{
 		id: "C10", level: "other", run: runC10,
-		explanation: "Decided: the framing discipline. (R1) the input reader is assigned once from the parameter, unwrapped, and read only at the enumerated sites. (R2) every read is exact or capped: header = 1 byte + (Size-1) bytes with Size proven in {12,14} at the read; CRC = 2 bytes; the buffer handed to Read in fill has high bound min(len(buf), limit-n), behind the n == limit guard; the byte counter n advances by exactly the amount i advances in every function that hands bytes out; CRC-only mode copies exactly DataSize bytes. readFull returns nil only when the whole destination was filled. (R3) exact consumption: limit is set once to DataSize; decodeFileData succeeds only through the false edge of n < limit; decode reaches checkCRC only after that. (R4; chained files start from per-file state: a fresh decoder per file, or every decoder field written while decoding is re-initialised before its next use) DecodeChained allocates a fresh decoder inside its loop and passes the same reader; DecodeHeader/DecodeHeaderAndFileID/Decode share decode and return its header / file_id. NOT decided: equality of each chained File with the File decoded alone (follows from R1-R4 and C08 on paper); the relational invariant n <= limit is implied by the cap and the counting rule but is not computed by an interval analysis here. (R4 options-state) nothing on the decode path writes through a map or slice kept in decodeOptions.",
+		explanation: "Decided: the framing discipline. (R1) the input reader is assigned once from the parameter, unwrapped, and read only at the enumerated sites. (R2) every read is exact or capped: header = 1 byte + (Size-1) bytes with Size proven in {12,14} at the read; CRC = 2 bytes; the buffer handed to Read in fill has high bound min(len(buf), limit-n), behind the n == limit guard; the byte counter n advances by exactly the amount i advances in every function that hands bytes out; CRC-only mode copies exactly DataSize bytes. readFull returns nil only when the whole destination was filled. (R3) exact consumption: limit is set once to DataSize; decodeFileData succeeds only through the false edge of n < limit; decode reaches checkCRC only after that. (R4; chained files start from per-file state: a fresh decoder per file, or every decoder field written while decoding is re-initialised before its next use) DecodeChained allocates a fresh decoder inside its loop and passes the same reader; DecodeHeader/DecodeHeaderAndFileID/Decode share decode and return its header / file_id. NOT decided: equality of each chained File with the File decoded alone (follows from R1-R4 and C08 on paper); the relational invariant n <= limit is implied by the cap and the counting rule but is not computed by an interval analysis here. (R4 options-state) nothing on the decode path writes through a map or slice kept in decodeOptions. The read discipline of C04 (who reads the input; every byte read reaches the running checksum exactly once) runs here too: a byte hashed twice or not at all makes the result depend on the reader's chunking.",
 		trusted:     []string{"io.ReadFull/binary.Read/io.CopyN read exactly the requested amount or fail", "io.Reader.Read(p) reads at most len(p) bytes"},
 	})
 }
@@ -353,6 +353,8 @@ func runC10(c *Ctx, r *Report) {
 		perFileRule(c, r, "C10-R4-chaining", nil, "buffered bytes, counters, definitions or timestamps of one file are seen by the next, so a chained file does not decode as it does alone")
 	}
 	sharedDecode(c, r)
+	// chunk independence of the result: who reads the input, and every byte read reaches the checksum once
+	c04ReadDiscipline(c, r)
 }
 
 // sharedDecode: every decoding entry point goes through the one decoder.decode exactly once and
